@@ -492,10 +492,16 @@ impl Parser<'_, '_> {
             let is_anonymous_record = matches!(
                 self.peek_many::<2>(),
                 Some([Token::CurlyLeft, Token::CurlyRight])
-            ) || matches!(
+            ) || (matches!(
+                // Only look at the third token if the second one is an
+                // identifier: lexing past the start of an f-string in normal
+                // mode would corrupt the f-string.
+                self.peek_many::<2>(),
+                Some([Token::CurlyLeft, Token::Ident(_)])
+            ) && matches!(
                 self.peek_many::<3>(),
                 Some([Token::CurlyLeft, Token::Ident(_), Token::Colon])
-            );
+            ));
             if is_anonymous_record {
                 let key_values = self.record()?;
                 let span = self.spans.get(&key_values);
